@@ -417,6 +417,14 @@ func checkMain(repo, verif string, args []string) int {
 	for _, t := range trustedFns {
 		assumptions = append(assumptions, "assumed contract (not verified): "+t)
 	}
+	var tks []string
+	for k := range w.trusted {
+		tks = append(tks, k)
+	}
+	sort.Strings(tks)
+	for _, k := range tks {
+		assumptions = append(assumptions, "trusted (assumed, not verified): "+k+" - "+w.trusted[k])
+	}
 	for _, e := range exts {
 		assumptions = append(assumptions, "external function havocked (no contract assumed): "+e)
 	}
